@@ -17,6 +17,8 @@
 #include "system/Thread.h"
 #include "util/SocketMultiplexer.h"
 #include "util/ICallbackMechanism.h"
+#include "util/NetworkUtilityFunctions.h"
+#include <sys/socket.h>
 #include "system/SetupSystem.h"
 #include "util/TimeUtilityFunctions.h"
 #include <pthread.h>
@@ -66,12 +68,14 @@ static std::atomic<long> g_ownerNotifies;          // empty->non-empty transitio
 static long g_ownerFlushMark = 0;                   // owner thread only: g_ownerNotifies when an owner wait last came back from blocking
 static bool g_ownerLastWasBlock = false, g_ownerPassedBlock = false, g_ownerStaleAtBlock = false;   // owner thread only, reset before each receive call
 static pthread_t g_ownerTid;
+static bool g_internalPassedBlock = false;       // internal thread only (one incarnation at a time)
 static void MyHook(int site, const void * obj, long arg)
 {
    const int r = hookrt::role();
    if (r == ROLE_OWNER || r == ROLE_INTERNAL) {
       if (site == MVH_THREAD_WAIT_BEFORE_BLOCK) {
          if (r == ROLE_OWNER) { if (!g_ownerPassedBlock) g_ownerStaleAtBlock = (g_ownerNotifies.load(std::memory_order_relaxed) > g_ownerFlushMark); g_ownerPassedBlock = true; g_ownerLastWasBlock = true; }
+         else g_internalPassedBlock = true;
          g_block[r].store(1, std::memory_order_relaxed);
       }
       else if (site == MVH_THREAD_WAIT_AFTER_DRAIN) {
@@ -84,6 +88,31 @@ static void MyHook(int site, const void * obj, long arg)
 }
 static void BeforeOwnerReceive() { g_ownerLastWasBlock = false; g_ownerPassedBlock = false; g_ownerStaleAtBlock = false; }
 extern "C" void NoOpSignalHandler(int) {}          // async-signal-safe: does nothing; installed for SIGUSR1 without SA_RESTART
+
+// ---- user sockets registered with the Thread's socket sets (socket-pair mechanism only): one end ("mine") is watched by the internal thread or
+// by the owner in SOCKET_SET_READ / WRITE / EXCEPTION, the other end ("peer") is the harness's handle to make it ready.  A ready one may end a wait
+// early with B_IO_READY (the waiter then makes it unready again: reads what is there / fills the send buffer); an unready one must never keep a
+// Message from waking the waiter.
+enum { US_INTERNAL = 0, US_OWNER = 1, MAX_US = 4 };
+struct UserSock {
+   ConstSocketRef mine, peer; int side, set; bool toggling, late; std::atomic<int> active, unready; long fd;
+   UserSock() : side(0), set(0), toggling(false), late(false), active(0), unready(1), fd(-1) {}
+};
+static void MakeUnready(UserSock & u)      // called by the thread that watches it
+{
+   const int fd = u.mine.GetFileDescriptor(); char buf[4096]; memset(buf, 'u', sizeof(buf));
+   if (u.set == Thread::SOCKET_SET_READ) { while (recv(fd, buf, sizeof(buf), MSG_DONTWAIT) > 0) {} }
+   else if (u.set == Thread::SOCKET_SET_WRITE) { while (send(fd, buf, sizeof(buf), MSG_DONTWAIT | MSG_NOSIGNAL) > 0) {} }
+   u.unready.store(1, std::memory_order_relaxed);
+}
+static void MakeReady(UserSock & u)        // called by the owner (the only thread that touches the peer ends)
+{
+   const int fd = u.peer.GetFileDescriptor(); char buf[4096];
+   if (u.set == Thread::SOCKET_SET_READ) { buf[0] = 'r'; if (send(fd, buf, 1, MSG_DONTWAIT | MSG_NOSIGNAL) < 0) {} }
+   else if (u.set == Thread::SOCKET_SET_WRITE) { while (recv(fd, buf, sizeof(buf), MSG_DONTWAIT) > 0) {} }
+   else return;                             // nothing raises an exception on a local socket pair
+   u.unready.store(0, std::memory_order_relaxed);
+}
 
 // ---- the harness's ICallbackMechanism: a latched flag under a mutex; the dispatch thread (= the owner) waits for it UNTIMED
 class HarnessCallbackMechanism : public ICallbackMechanism {
@@ -108,7 +137,7 @@ struct Scenario;
 // ---- the Thread under test.  Everything the internal thread writes here is plain data that the owner reads only after a join.
 class EchoThread : public Thread {
 public:
-   EchoThread(bool sockets, int style, int replyMode, uint64_t seed, ICallbackMechanism * mech, Scenario * sink) : Thread(sockets, mech), _style(style), _replyMode(replyMode), _seed(seed), _incarnation(0), _waitError(false), _sendError(false), _idleWakeups(0), _recvCount(0), _sink(sink), _announce(false), _repliedTo(0), _ptid(0), _ptidValid(0), _repliesSent(0), _stampCap(0), _gateSeq(-1), _gateOpen(false) {}
+   EchoThread(bool sockets, int style, int replyMode, uint64_t seed, ICallbackMechanism * mech, Scenario * sink) : Thread(sockets, mech), _style(style), _replyMode(replyMode), _seed(seed), _incarnation(0), _waitError(false), _sendError(false), _idleWakeups(0), _recvCount(0), _sink(sink), _announce(false), _repliedTo(0), _ptid(0), _ptidValid(0), _repliesSent(0), _stampCap(0), _gateSeq(-1), _gateOpen(false), _us(NULL), _ioReadyWakeups(0), _wakeupsWithUnreadyUserSockets(0), _userSocksRegistered(0) {}
    int _style, _replyMode; uint64_t _seed; int _incarnation;
    std::vector<uint32_t> _log;        // (snd << 24 | seq) per Message in arrival order, LOG_TOKEN for the NULL shutdown token
    bool _waitError; std::string _waitErrorText; bool _sendError;
@@ -120,6 +149,11 @@ public:
    std::atomic<long> _repliesSent; std::unique_ptr<std::atomic<uint64_t>[]> _stamp; long _stampCap;   // relaxed: GetRunTime64() after the i-th SendMessageToOwner() returned
    void AllocStamps(long cap) { _stamp.reset(new std::atomic<uint64_t>[cap]); for (long i = 0; i < cap; i++) _stamp[i].store(0); _stampCap = cap; }
    uint64_t StampOf(long i) const { return (i >= 0 && i < _stampCap) ? _stamp[i].load(std::memory_order_relaxed) : 0; }
+   UserSock * _us; long _ioReadyWakeups, _wakeupsWithUnreadyUserSockets, _userSocksRegistered;   // internal thread only
+   bool Mine(int i, int minActive) const { return _us[i].active.load(std::memory_order_acquire) >= minActive && _us[i].side == US_INTERNAL; }   // acquire first: the owner fills a slot, then publishes it
+   int InternalWakeupFd() { return GetInternalThreadWakeupSocket().GetFileDescriptor(); }
+   status_t TryRegisterInternal(const ConstSocketRef & s, uint32 set) { return RegisterInternalThreadSocket(s, set); }
+   bool AnyUnreadyInternalUserSocket() const { if (_us) for (int i = 0; i < MAX_US; i++) if (Mine(i, 2) && _us[i].unready.load(std::memory_order_relaxed)) return true; return false; }
    int _gateSeq; bool _gateOpen;   // regress witnesses only: the replies to owner Message #_gateSeq are held back until OpenGate()
    void CloseGateFor(int seq) { std::lock_guard<std::mutex> g(_rmu); _gateOpen = false; _gateSeq = seq; }
    void OpenGate() { { std::lock_guard<std::mutex> g(_rmu); _gateOpen = true; } _rcv.notify_all(); }
@@ -131,6 +165,15 @@ public:
       hookrt::set_role(ROLE_INTERNAL); hookrt::t_rng ^= (uint32_t)(_seed >> 7) * 2u + (uint32_t)_incarnation * 977u; if (hookrt::t_rng == 0) hookrt::t_rng = 1;
       _incarnation++;
       _ptid.store((unsigned long)pthread_self(), std::memory_order_relaxed); _ptidValid.store(1, std::memory_order_release);
+      g_internalPassedBlock = false;
+      if (_us) {
+         for (uint32 set = 0; set < NUM_SOCKET_SETS; set++) UnregisterAllInternalThreadSocketsInSet(set);
+         for (int i = 0; i < MAX_US; i++) if (Mine(i, 1)) {
+            if (RegisterInternalThreadSocket(_us[i].mine, (uint32)_us[i].set).IsError()) { _waitError = true; _waitErrorText = "RegisterInternalThreadSocket failed"; return; }
+            if (i == 0 && _incarnation > 1) { (void)UnregisterInternalThreadSocket(_us[i].mine, (uint32)_us[i].set); (void)RegisterInternalThreadSocket(_us[i].mine, (uint32)_us[i].set); }
+            _us[i].active.store(2, std::memory_order_relaxed); _userSocksRegistered++;
+         }
+      }
       if (_style == STYLE_DEFAULT) { Thread::InternalThreadEntry(); return; }
       if (_style == STYLE_SELFIRST) {
          // the pattern of MessageTransceiverThread: block on the wake-up socket, then poll until the queue is empty
@@ -138,7 +181,8 @@ public:
          if (fd < 0) { _waitError = true; _waitErrorText = "GetInternalThreadWakeupSocket() has no file descriptor"; return; }
          while (true) {
             (void)sm.RegisterSocketForReadReady(fd);
-            g_block[ROLE_INTERNAL].store(1, std::memory_order_relaxed);
+            if (_us) for (int i = 0; i < MAX_US; i++) if (Mine(i, 2)) (void)sm.RegisterSocketForEventsByTypeIndex(_us[i].mine.GetFileDescriptor(), (uint32)_us[i].set);   // all never ready in this style
+            g_internalPassedBlock = true; g_block[ROLE_INTERNAL].store(1, std::memory_order_relaxed);
             io_status_t w = sm.WaitForEvents();
             g_block[ROLE_INTERNAL].store(0, std::memory_order_relaxed);
             if (w.IsError()) { _waitError = true; _waitErrorText = std::string("SocketMultiplexer::WaitForEvents on the wake-up socket: ") + w.GetStatus()(); return; }
@@ -155,6 +199,7 @@ public:
          status_t s = WaitForNextMessageFromOwner(m, w, &nl);
          if (s.IsOK()) { if (MessageReceivedFromOwner(m, nl).IsError()) return; }
          else if (s == B_TIMED_OUT) { if (w == MUSCLE_TIME_NEVER) _idleWakeups++; else if (w == 0) sched_yield(); }
+         else if (s == B_IO_READY && _us) { _ioReadyWakeups++; for (int i = 0; i < MAX_US; i++) if (Mine(i, 2) && IsInternalThreadSocketReady(_us[i].mine, (uint32)_us[i].set)) MakeUnready(_us[i]); }
          else { _waitError = true; _waitErrorText = std::string("WaitForNextMessageFromOwner: ") + s(); return; }
       }
    }
@@ -168,6 +213,7 @@ public:
       if (m()->what != WHAT_MSG || m()->FindInt32("snd", snd).IsError() || m()->FindInt32("seq", seq).IsError() || snd < 0 || snd > 100 || seq < 1 || seq >= (1 << 24)) { _log.push_back(LOG_INVALID); return B_NO_ERROR; }
       _log.push_back(((uint32_t)snd << 24) | (uint32_t)seq);
       _recvCount.fetch_add(1, std::memory_order_relaxed);
+      if (g_internalPassedBlock) { g_internalPassedBlock = false; if (AnyUnreadyInternalUserSocket()) _wakeupsWithUnreadyUserSockets++; }
       if (_announce && snd == 0) { std::unique_lock<std::mutex> lk(_rmu); while (seq == _gateSeq && !_gateOpen) _rcv.wait(lk); }
       const int n = NumReplies(_replyMode, snd, seq);
       for (int b = 0; b < n; b++) {
@@ -200,10 +246,10 @@ static const struct { bool sockets; int style; bool callback; } COMBO[NCOMBO] = 
 static const char * KindName(int k) { return k == hookrt::K_YIELD ? "yield" : k == hookrt::K_SLEEP ? "sleep" : "spin"; }
 
 struct Params {
-   long k; uint64_t cs; bool sockets; int style; int replyMode; int nHelpers; int perSender; int pre; int maxRestarts; bool epilogue; bool callback, cbPure; int cbScript; bool signals; int sigTarget;
+   long k; uint64_t cs; bool sockets; int style; int replyMode; int nHelpers; int perSender; int pre; int maxRestarts; bool epilogue; bool callback, cbPure; int cbScript; bool signals; int sigTarget; int nUser;
    std::string placement;
-   Params() : k(0), cs(1), sockets(true), style(STYLE_DEFAULT), replyMode(REPLY_ECHO), nHelpers(0), perSender(10), pre(0), maxRestarts(0), epilogue(false), callback(false), cbPure(false), cbScript(0), signals(false), sigTarget(0) {}
-   std::string Show() const { return vh::fmt("mech=%s owner=%s signals=%s style=%s reply=%s helpers=%d perSender=%d prequeued=%d placement=[%s]", sockets ? "socketpair" : "waitcondition", callback ? (cbPure ? "callback-only" : "callback+direct") : "direct", !signals ? "no" : sigTarget == 0 ? "internal" : sigTarget == 1 ? "owner" : "both", StyleName(style), ReplyName(replyMode), nHelpers, perSender, pre, placement.c_str()); }
+   Params() : k(0), cs(1), sockets(true), style(STYLE_DEFAULT), replyMode(REPLY_ECHO), nHelpers(0), perSender(10), pre(0), maxRestarts(0), epilogue(false), callback(false), cbPure(false), cbScript(0), signals(false), sigTarget(0), nUser(0) {}
+   std::string Show() const { return vh::fmt("mech=%s owner=%s signals=%s usersockets=%d style=%s reply=%s helpers=%d perSender=%d prequeued=%d placement=[%s]", sockets ? "socketpair" : "waitcondition", callback ? (cbPure ? "callback-only" : "callback+direct") : "direct", !signals ? "no" : sigTarget == 0 ? "internal" : sigTarget == 1 ? "owner" : "both", nUser, StyleName(style), ReplyName(replyMode), nHelpers, perSender, pre, placement.c_str()); }
 };
 
 // arms one (site, role) in slot; returns its description
@@ -243,6 +289,7 @@ struct Scenario {
    Params P; HarnessCallbackMechanism mech; EchoThread t; pthread_rwlock_t life; vh::Rng r;   // mech outlives t
    std::atomic<long> helperDue, helperSent, helpersDone, helperSendErrors;
    std::vector<std::thread> helpers;
+   UserSock us[MAX_US]; int nUs; bool userLowerFdWriteExceptUnready; long nIoReadyOwner, nOwnerWakeupsUnready, nUserBelow, nUserAbove, nToggles, nReRegister;
    std::thread signaller; bool signallerStarted; std::atomic<int> sigStop; std::atomic<long> sigBlockedInternal, sigBlockedOwner, sigElsewhere;
    int ownerSeq; long ownerDue, got; bool running, tokenPending, lastRecvEmpty, bad, giveUp;
    std::vector<Rep> replyLog; std::vector<int> ownerSeqAtToken;
@@ -250,13 +297,14 @@ struct Scenario {
    // observation counters of this case
    long nPollOk, nPollEmpty, nTimedOk, nTimedOut, nBlockOk, nBlockIdle, nSelect, nSelectIdle, nRestarts, nStarts, nSentAfterRequest, nSentWhileStopped, nPre, nRepliesWhileStopped, nUnspecTimedStopped, nCbDispatch, nCbReplies, nCbIdle, nCbWaits, nCbSendsInside, nCbScriptFired, nLongTimed, nLongTimedOk, nLongTimedAlreadyQueued, nTimedAlreadyQueued, nStaleHist, nLongTimedUnjudged, nLongTimedIdleSockets;
 
-   Scenario(const Params & p) : P(p), t(p.sockets, p.style, p.replyMode, p.cs, p.callback ? &mech : NULL, this), r(p.cs ^ 0xC11C11ULL), helperDue(0), helperSent(0), helpersDone(0), helperSendErrors(0), signallerStarted(false), sigStop(0), sigBlockedInternal(0), sigBlockedOwner(0), sigElsewhere(0),
+   Scenario(const Params & p) : P(p), t(p.sockets, p.style, p.replyMode, p.cs, p.callback ? &mech : NULL, this), r(p.cs ^ 0xC11C11ULL), helperDue(0), helperSent(0), helpersDone(0), helperSendErrors(0), nUs(0), userLowerFdWriteExceptUnready(false), nIoReadyOwner(0), nOwnerWakeupsUnready(0), nUserBelow(0), nUserAbove(0), nToggles(0), nReRegister(0), signallerStarted(false), sigStop(0), sigBlockedInternal(0), sigBlockedOwner(0), sigElsewhere(0),
       ownerSeq(0), ownerDue(0), got(0), running(false), tokenPending(false), lastRecvEmpty(true), bad(false), giveUp(false), idleInARow(0),
       nPollOk(0), nPollEmpty(0), nTimedOk(0), nTimedOut(0), nBlockOk(0), nBlockIdle(0), nSelect(0), nSelectIdle(0), nRestarts(0), nStarts(0), nSentAfterRequest(0), nSentWhileStopped(0), nPre(0), nRepliesWhileStopped(0), nUnspecTimedStopped(0), nCbDispatch(0), nCbReplies(0), nCbIdle(0), nCbWaits(0), nCbSendsInside(0), nCbScriptFired(0), nLongTimed(0), nLongTimedOk(0), nLongTimedAlreadyQueued(0), nTimedAlreadyQueued(0), nStaleHist(0), nLongTimedUnjudged(0), nLongTimedIdleSockets(0)
    {
       pthread_rwlockattr_t a; pthread_rwlockattr_init(&a); pthread_rwlockattr_setkind_np(&a, PTHREAD_RWLOCK_PREFER_WRITER_NONRECURSIVE_NP);
       if (pthread_rwlock_init(&life, &a) != 0) { fprintf(stderr, "HARNESS-ABORT: pthread_rwlock_init\n"); abort(); }
       pthread_rwlockattr_destroy(&a);
+      t._us = us;
       t.AllocStamps(((long)P.perSender * (1 + P.nHelpers) + 64) * 6 + 64);
       for (int i = 0; i < 4; i++) g_block[i].store(0); g_ownerNotifies.store(0); g_ownerFlushMark = 0; BeforeOwnerReceive();
    }
@@ -308,7 +356,7 @@ struct Scenario {
       MessageRef rep; status_t s = t.GetNextReplyFromInternalThread(rep, GetRunTime64() + r.R(400));
       g_block[ROLE_OWNER].store(0, std::memory_order_relaxed);
       if (s.IsOK()) { HandleReply(rep); nTimedOk++; if (!g_ownerPassedBlock) nTimedAlreadyQueued++; }
-      else if (s == B_TIMED_OUT) { lastRecvEmpty = true; nTimedOut++; if (sentBefore > gotBefore) Fail("timed_wait|timed_out_with_message_queued", vh::fmt("GetNextReplyFromInternalThread(soon) returned B_TIMED_OUT although %ld replies had been sent (SendMessageToOwner returned) and only %ld received before the call began", sentBefore, gotBefore)); } else Fail("timed_wait|unexpected_status", std::string("GetNextReplyFromInternalThread(soon) returned ") + s());
+      else if (s == B_TIMED_OUT) { lastRecvEmpty = true; nTimedOut++; if (sentBefore > gotBefore) Fail("timed_wait|timed_out_with_message_queued", vh::fmt("GetNextReplyFromInternalThread(soon) returned B_TIMED_OUT although %ld replies had been sent (SendMessageToOwner returned) and only %ld received before the call began", sentBefore, gotBefore)); } else if (s == B_IO_READY && nUs > 0) OwnerIoReady(); else Fail("timed_wait|unexpected_status", std::string("GetNextReplyFromInternalThread(soon) returned ") + s());
    }
    // a timed wait with a deadline seconds away, begun only when a reply is due (so it returns at once on a healthy tree).  Verdicts by RETURN
    // CODE, never by lateness: (A) B_TIMED_OUT although a reply was already queued before the call; (B) wait-condition mechanism only, where
@@ -325,6 +373,7 @@ struct Scenario {
       MessageRef rep; status_t s = t.GetNextReplyFromInternalThread(rep, deadline);
       g_block[ROLE_OWNER].store(0, std::memory_order_relaxed);
       nLongTimed++; if (!P.sockets && g_ownerPassedBlock && g_ownerStaleAtBlock) nStaleHist++;
+      if (s.IsOK() && g_ownerPassedBlock && AnyUnreadyOwnerUserSocket()) nOwnerWakeupsUnready++;
       if (s.IsOK()) { HandleReply(rep); nLongTimedOk++; if (!g_ownerPassedBlock) nLongTimedAlreadyQueued++; }
       else if (s == B_TIMED_OUT) {
          lastRecvEmpty = true;
@@ -334,6 +383,7 @@ struct Scenario {
          else if (P.sockets) nLongTimedIdleSockets++;   // socket pair: an early return without a Message is legal (stale signal byte, interrupted select)
          else nLongTimedUnjudged++;
       }
+      else if (s == B_IO_READY && nUs > 0) OwnerIoReady();
       else Fail("timed_wait|unexpected_status", std::string("GetNextReplyFromInternalThread(now + 3 s) returned ") + s());
    }
    void Block()
@@ -343,7 +393,8 @@ struct Scenario {
       Note("owner in GetNextReplyFromInternalThread(MUSCLE_TIME_NEVER)");
       MessageRef rep; status_t s = t.GetNextReplyFromInternalThread(rep, MUSCLE_TIME_NEVER);
       g_block[ROLE_OWNER].store(0, std::memory_order_relaxed);
-      if (s.IsOK()) { HandleReply(rep); nBlockOk++; } else if (s == B_TIMED_OUT) { nBlockIdle++; lastRecvEmpty = true; Idle("GetNextReplyFromInternalThread(MUSCLE_TIME_NEVER)"); } else { Fail("blocking_wait|unexpected_status", std::string("GetNextReplyFromInternalThread(MUSCLE_TIME_NEVER) returned ") + s()); giveUp = true; }
+      if (s.IsOK() && g_ownerPassedBlock && AnyUnreadyOwnerUserSocket()) nOwnerWakeupsUnready++;
+      if (s.IsOK()) { HandleReply(rep); nBlockOk++; } else if (s == B_TIMED_OUT) { nBlockIdle++; lastRecvEmpty = true; Idle("GetNextReplyFromInternalThread(MUSCLE_TIME_NEVER)"); } else if (s == B_IO_READY && nUs > 0) OwnerIoReady(); else { Fail("blocking_wait|unexpected_status", std::string("GetNextReplyFromInternalThread(MUSCLE_TIME_NEVER) returned ") + s()); giveUp = true; }
    }
    // owner-side select-first (the way a ReflectServer owns a Thread): sound only when the owner's last dequeue attempt found the queue
    // empty, because then the next enqueue is an empty->non-empty transition and must signal
@@ -364,6 +415,52 @@ struct Scenario {
       while (true) { MessageRef rep; status_t s = t.GetNextReplyFromInternalThread(rep, 0); if (s.IsOK()) { HandleReply(rep); n++; } else { if (s != B_TIMED_OUT) Fail("poll|unexpected_status", std::string("GetNextReplyFromInternalThread(0) returned ") + s()); break; } }
       lastRecvEmpty = true;
       if (n == 0) { nSelectIdle++; Idle("select on GetOwnerWakeupSocket() + poll"); }
+   }
+
+   // ---- user sockets in the Thread's socket sets
+   void CreateUser(bool late)
+   {
+      if (nUs >= MAX_US || !P.sockets) return;
+      const int side = r.R(2) ? US_OWNER : US_INTERNAL, set = (int)r.R(3);
+      CreateUserWith(side, set, r.R(6), late);
+   }
+   void CreateUserWith(int side, int set, uint32_t st /* 0-2 never ready, 3 ready at the start, 4-5 toggling */, bool late)
+   {
+      if (nUs >= MAX_US || !P.sockets) return;
+      UserSock & u = us[nUs];
+      u.side = side; u.set = set; u.late = late;
+      bool readyAtStart = (st == 3) || (st == 5); u.toggling = (st >= 3);
+      if (u.side == US_INTERNAL && P.style != STYLE_MIXED) { readyAtStart = false; u.toggling = false; }   // only the mixed-waits loop of the harness handles B_IO_READY (see report: the default loop treats it as fatal)
+      if (u.set == Thread::SOCKET_SET_EXCEPTION) { readyAtStart = false; u.toggling = false; }
+      if (CreateConnectedSocketPair(u.mine, u.peer, false).IsError()) { fprintf(stderr, "HARNESS-ABORT: CreateConnectedSocketPair\n"); abort(); }
+      u.fd = u.mine.GetFileDescriptor();
+      { int sz = 4096; (void)setsockopt(u.mine.GetFileDescriptor(), SOL_SOCKET, SO_SNDBUF, &sz, sizeof(sz)); }
+      if (readyAtStart) { if (u.set == Thread::SOCKET_SET_READ) MakeReady(u); else u.unready.store(0); } else MakeUnready(u);
+      if (u.side == US_OWNER) { if (t.RegisterOwnerThreadSocket(u.mine, (uint32)u.set).IsError()) Fail("user_socket|register_failed", "RegisterOwnerThreadSocket failed"); }   // active stays 0: the internal thread never looks at an owner-side slot
+      else u.active.store(1, std::memory_order_release);   // the next incarnation of the internal thread registers it
+      nUs++;
+   }
+   bool AnyUnreadyOwnerUserSocket() const { for (int i = 0; i < nUs; i++) if (us[i].side == US_OWNER && us[i].unready.load(std::memory_order_relaxed)) return true; return false; }
+   void OwnerIoReady()   // a wait ended early with B_IO_READY: legal when one of the owner's user sockets is ready; make it unready again
+   {
+      nIoReadyOwner++; lastRecvEmpty = true; bool any = false;
+      for (int i = 0; i < nUs; i++) if (us[i].side == US_OWNER && t.IsOwnerThreadSocketReady(us[i].mine, (uint32)us[i].set)) { any = true; MakeUnready(us[i]); }
+      if (!any) Fail("user_socket|io_ready_without_ready_socket", "GetNextReplyFromInternalThread returned B_IO_READY but IsOwnerThreadSocketReady() is false for every registered socket");
+   }
+   void ToggleUser()
+   {
+      if (nUs == 0) { sched_yield(); return; }
+      UserSock & u = us[r.R((uint32_t)nUs)];
+      if (u.side == US_OWNER && r.R(4) == 0) { if (t.UnregisterOwnerThreadSocket(u.mine, (uint32)u.set).IsError() || t.RegisterOwnerThreadSocket(u.mine, (uint32)u.set).IsError()) Fail("user_socket|register_failed", "Unregister/RegisterOwnerThreadSocket failed"); nReRegister++; }
+      if (u.toggling && u.unready.load(std::memory_order_relaxed)) { MakeReady(u); nToggles++; }
+   }
+   void ClassifyUserFds()   // after the first start: where do the registered fds lie relative to the wake-up sockets
+   {
+      const int wi = t.InternalWakeupFd(), wo = t.GetOwnerWakeupSocket().GetFileDescriptor();
+      for (int i = 0; i < nUs; i++) {
+         const int w = (us[i].side == US_OWNER) ? wo : wi; if (us[i].fd < w) nUserBelow++; else nUserAbove++;
+         if (us[i].fd < w && us[i].set != Thread::SOCKET_SET_READ && us[i].unready.load(std::memory_order_relaxed)) userLowerFdWriteExceptUnready = true;
+      }
    }
 
    // ---- owner woken through the ICallbackMechanism.  Sound without any precondition on earlier direct receives: every empty->non-empty
@@ -505,8 +602,12 @@ struct Scenario {
    {
       for (int i = 0; i < P.pre; i++) OwnerSend();      // queued before the first start
       nPre = P.pre;
+      const int nLate = P.nUser ? (int)r.R((uint32_t)P.nUser + 1) / 2 : 0;
+      for (int i = 0; i < P.nUser - nLate; i++) CreateUser(false);      // before the Thread allocates its socket pair: lower fds
       Lock(); const bool ok = StartL(); Unlock();
       if (ok) {
+         for (int i = 0; i < nLate; i++) CreateUser(true);               // after: higher fds (internal-side ones are registered by the next incarnation)
+         if (P.sockets) ClassifyUserFds();
          for (int h = 1; h <= P.nHelpers; h++) helpers.push_back(std::thread(HelperEntry, this, h));
          if (P.signals) { signaller = std::thread(SignallerEntry, this); signallerStarted = true; }
          int restartsLeft = P.maxRestarts;
@@ -516,13 +617,14 @@ struct Scenario {
             const uint32_t c = r.R(100);
             if (restartsLeft > 0 && ownerSeq >= nextRestartAt) { restartsLeft--; nextRestartAt += restartEvery; Restart(); }
             else if (c < 35) { if (ownerSeq < P.perSender) OwnerSend(); else sched_yield(); }
-            else if (P.callback && P.cbPure) { if (c < 50) TryDispatch(); else if (c < 80) Callback(); else sched_yield(); }
+            else if (P.callback && P.cbPure) { if (c < 50) TryDispatch(); else if (c < 80) Callback(); else if (c < 86 && nUs > 0) ToggleUser(); else sched_yield(); }
             else if (P.callback && c >= 62 && c < 80) { if (c < 66) Block(); else if (c < 68) Select(); else if (c < 78) Callback(); else TryDispatch(); }
             else if (c < 52) Poll();
             else if (c < 62) Timed();
             else if (c < 74) Block();
             else if (c < 80) Select();
             else if (c < 81 && r.R(6) == 0 && P.maxRestarts > 0) Restart();
+            else if (c < 86 && nUs > 0) ToggleUser();
             else sched_yield();
          }
          Note("owner joins the helper threads");
@@ -626,6 +728,15 @@ static void Publish(Scenario & sc, const long * hits0, const long * delays0)
       vh::stat("cases_with_signals"); vh::stat(P.sockets ? "cases_with_signals_socketpair" : "cases_with_signals_waitcondition");
       vh::stat("signals_delivered_to_blocked_internal_thread", sc.sigBlockedInternal.load()); vh::stat("signals_delivered_to_blocked_owner_thread", sc.sigBlockedOwner.load()); vh::stat("signals_delivered_elsewhere", sc.sigElsewhere.load());
    }
+   if (sc.nUs > 0) {
+      vh::stat("cases_with_user_sockets"); vh::stat("user_sockets_registered", sc.nUs); vh::stat("user_sockets_fd_below_wakeup_socket", sc.nUserBelow); vh::stat("user_sockets_fd_above_wakeup_socket", sc.nUserAbove);
+      for (int i = 0; i < sc.nUs; i++) vh::stat(std::string("user_socket_") + (sc.us[i].side == US_OWNER ? "owner_" : "internal_") + (sc.us[i].set == 0 ? "read" : sc.us[i].set == 1 ? "write" : "except") + (sc.us[i].toggling ? "_toggling" : "_never_ready"));
+      if (sc.userLowerFdWriteExceptUnready) vh::stat("cases_with_user_socket_in_write_or_except_set_lower_fd_not_ready");
+      vh::stat("wakeups_for_message_with_unready_user_sockets", sc.nOwnerWakeupsUnready + sc.t._wakeupsWithUnreadyUserSockets);
+      vh::stat("wakeups_for_message_with_unready_user_sockets_internal_thread", sc.t._wakeupsWithUnreadyUserSockets); vh::stat("wakeups_for_message_with_unready_user_sockets_owner", sc.nOwnerWakeupsUnready);
+      vh::stat("early_wakeups_by_ready_user_socket_owner", sc.nIoReadyOwner); vh::stat("early_wakeups_by_ready_user_socket_internal_thread", sc.t._ioReadyWakeups);
+      vh::stat("user_socket_toggles_to_ready", sc.nToggles); vh::stat("user_socket_unregister_reregister", sc.nReRegister); vh::stat("user_socket_registrations_by_internal_thread", sc.t._userSocksRegistered);
+   }
    vh::stat("long_timed_waits", sc.nLongTimed); vh::stat("long_timed_waits_ok", sc.nLongTimedOk); vh::stat("timed_waits_started_with_message_already_queued", sc.nLongTimedAlreadyQueued + sc.nTimedAlreadyQueued);
    vh::stat("stale_notification_histories", sc.nStaleHist); vh::stat("long_timed_wait_timeouts_unjudged", sc.nLongTimedUnjudged); vh::stat("long_timed_wait_early_returns_socketpair", sc.nLongTimedIdleSockets);
    if (sc.P.epilogue) vh::stat("cases_with_epilogue_start");
@@ -644,7 +755,7 @@ static void RunCase(long k, uint64_t seed)
    const int combo = vh::has_opt("combo") ? (int)vh::optl("combo") % NCOMBO : (int)((k / NPL) % NCOMBO);
    P.sockets = COMBO[combo].sockets; P.style = COMBO[combo].style; P.callback = COMBO[combo].callback;
    P.nHelpers = g.R(4); P.replyMode = (int)g.R(8); if (P.replyMode > 3) P.replyMode = (P.replyMode & 1) ? REPLY_BURST : REPLY_ECHO;
-   P.pre = g.R(2) ? 1 + g.R(4) : 0; P.maxRestarts = g.R(3) ? g.R(4) : 0; P.epilogue = (g.R(4) == 0); P.cbPure = P.callback && g.R(2); P.signals = (g.R(3) == 0); P.sigTarget = (int)g.R(3);
+   P.pre = g.R(2) ? 1 + g.R(4) : 0; P.maxRestarts = g.R(3) ? g.R(4) : 0; P.epilogue = (g.R(4) == 0); P.cbPure = P.callback && g.R(2); P.signals = (g.R(3) == 0); P.sigTarget = (int)g.R(3); P.nUser = (P.sockets && g.R(3) != 0) ? 1 + (int)g.R(3) : 0;
    const long target = vh::optl("msgs", 200); const int total = (int)(target / 2 + g.R((uint32_t)target));
    // ---- arm the placement of this case (no muscle thread is running now)
    hookrt::disarm_all(); hookrt::reset_ring();
@@ -710,6 +821,11 @@ static void Regress()
       }
       {  // documentation of Thread.h
          vh::begin_case(kase); P.k = kase++; P.cs = 400 + combo; Scenario sc(P);
+         if (!P.sockets) {   // "If the Thread object was constructed with (useMessagingSockets==false), then this method will always error out and return B_BAD_OBJECT with no side effects"
+            ConstSocketRef a, b; if (CreateConnectedSocketPair(a, b, false).IsError()) { fprintf(stderr, "HARNESS-ABORT: CreateConnectedSocketPair\n"); abort(); }
+            if (sc.t.RegisterOwnerThreadSocket(a, Thread::SOCKET_SET_READ) != B_BAD_OBJECT || sc.t.TryRegisterInternal(b, Thread::SOCKET_SET_WRITE) != B_BAD_OBJECT || sc.t.GetOwnerThreadSocketSet(Thread::SOCKET_SET_READ).HasItems()) sc.Fail("docex|RegisterThreadSocket", "a wait-condition Thread is documented to reject socket registration with B_BAD_OBJECT and no side effects");
+            vh::stat("regress_waitcondition_rejects_user_sockets");
+         }
          if (sc.t.WaitForInternalThreadToExit() != B_BAD_OBJECT) sc.Fail("docex|WaitForInternalThreadToExit", "documented: B_BAD_OBJECT if the internal thread wasn't running");
          sc.t.ShutdownInternalThread();   // "If the internal thread isn't running, this method is a no-op": in particular it must not queue a token
          if (sc.t.IsInternalThreadRunning()) sc.Fail("docex|IsInternalThreadRunning", "true before the first start");
@@ -767,6 +883,30 @@ static void Regress()
          sc.Lock(); sc.ShutdownJoinL(); sc.Unlock(); sc.FinalCheck();
          if (!sc.bad && (sc.replyLog.size() != 5 || sc.t._log.size() != 6)) sc.Fail("regress|signal_at_blocked_thread", sc.TailOfInternalLog(10) + "; " + sc.TailOfReplyLog(10));
          vh::stat("regress_signal_witnesses"); vh::stat("regress_signals_at_blocked_internal_thread", atInternal); vh::stat("regress_signals_at_blocked_owner_thread", atOwner);
+         vh::distinct(1000 + kase);
+      }
+      if (!P.callback && P.sockets) {
+         // C11-7 class: a backed-up (never writable) user socket in SOCKET_SET_WRITE, created before the Thread's socket pair (lower fd), must not
+         // keep a Message from waking the blocked internal thread; the same for the owner with a user socket in SOCKET_SET_EXCEPTION
+         vh::begin_case(kase); P.k = kase++; P.cs = 800 + combo; Scenario sc(P); sc.t._announce = true;
+         sc.CreateUserWith(US_INTERNAL, Thread::SOCKET_SET_WRITE, 0, false); sc.CreateUserWith(US_OWNER, Thread::SOCKET_SET_EXCEPTION, 0, false);
+         sc.Lock(); sc.StartL(); sc.Unlock(); sc.ClassifyUserFds();
+         for (int i = 0; i < 5; i++) {
+            long spins = 0; while (g_block[ROLE_INTERNAL].load(std::memory_order_relaxed) != 1 && spins++ < 20000000) sched_yield();   // the internal thread is at its blocking point
+            usleep(2000); sc.OwnerSend(); DrainAllDue(sc, false);
+         }
+         sc.t.CloseGateFor(sc.ownerSeq + 1); sc.OwnerSend();
+         EchoThread * et = &sc.t;
+         std::thread opener([et]() {
+            hookrt::set_role(ROLE_SIGNALLER);
+            long spins = 0; while (g_block[ROLE_OWNER].load(std::memory_order_relaxed) != 1 && spins++ < 20000000) sched_yield();   // the owner is at its blocking point
+            usleep(2000); et->OpenGate();
+         });
+         DrainAllDue(sc, false);
+         opener.join();
+         sc.Lock(); sc.ShutdownJoinL(); sc.Unlock(); sc.FinalCheck();
+         if (!sc.bad && (sc.replyLog.size() != 6 || sc.nUserBelow != 2)) sc.Fail("regress|user_socket_lower_fd", vh::fmt("%ld of 2 user sockets have an fd below the wake-up socket; ", sc.nUserBelow) + sc.TailOfReplyLog(10));
+         vh::stat("regress_user_socket_witnesses"); vh::stat("regress_wakeups_with_unready_user_sockets", sc.nOwnerWakeupsUnready + sc.t._wakeupsWithUnreadyUserSockets);
          vh::distinct(1000 + kase);
       }
       if (!P.callback) {
